@@ -47,7 +47,7 @@ func TestPropTransaction(t *testing.T) {
 		for _, n := range names {
 			c.Branches = append(c.Branches, Branch{Name: n, Existing: rapid.Bool().Draw(t, "existing")})
 		}
-		c.History = rapid.SampledFrom([]string{"commit-fault", "commit-fault", "commit-fault", "commit", "commit-twice", "discard", "discard-fault", "discard-after-commit", "commit-after-discard"}).Draw(t, "history")
+		c.History = rapid.SampledFrom([]string{"commit-fault", "commit-fault", "commit-fault", "commit", "commit-twice", "discard", "discard-fault", "discard-after-commit", "commit-after-discard", "reapply"}).Draw(t, "history")
 		nw, err := countWrites(c)
 		if err != nil {
 			t.Fatalf("HARNESS: %v", err)
@@ -78,7 +78,7 @@ func TestExhaustiveFaults(t *testing.T) {
 					}
 				}
 			}
-			for _, h := range []string{"commit", "commit-twice", "discard", "discard-after-commit", "commit-after-discard"} {
+			for _, h := range []string{"commit", "commit-twice", "discard", "discard-after-commit", "commit-after-discard", "reapply"} {
 				sub.Check(t, Case{Branches: bs, History: h})
 			}
 		}
@@ -147,6 +147,16 @@ func setup(c Case) (*world, error) {
 		sum, err := stores.SaveCommit(w.db, tbl, nil, time.Unix(1600001000+int64(i), 0), "staged "+b.Name)
 		if err != nil {
 			return nil, err
+		}
+		if i%2 == 1 {
+			// staged twice: a first try, then the corrected commit - the latter is what counts
+			first, err := stores.SaveCommit(w.db, model.Sum([]byte("first-try-table-"+b.Name)), nil, time.Unix(1600000500+int64(i), 0), "first try "+b.Name)
+			if err != nil {
+				return nil, err
+			}
+			if err := ref.SaveTransactionRef(w.rs, w.id, b.Name, first); err != nil {
+				return nil, err
+			}
 		}
 		if err := ref.SaveTransactionRef(w.rs, w.id, b.Name, sum); err != nil {
 			return nil, err
@@ -368,7 +378,9 @@ func run(c Case) (o evid.Outcome, err error) {
 	case "commit-fault":
 		w.arm(c.FaultAt, c.Dead)
 		_, cerr := transaction.Commit(w.db, w.rs, w.id)
-		if !w.hit {
+		hitC := w.hit
+		w.arm(0, false) // the harness's own reads below must not run into the fault
+		if !hitC {
 			// the commit needs fewer writes than FaultAt: plain successful commit
 			if cerr != nil {
 				return o, fmt.Errorf("Commit: %v", cerr)
@@ -377,7 +389,13 @@ func run(c Case) (o evid.Outcome, err error) {
 			return o, w.committed(c)
 		}
 		if cerr == nil {
-			return o, fmt.Errorf("store write #%d failed but Commit reported success", c.FaultAt)
+			// a failed read may be survivable (the answer was not needed); success is only
+			// acceptable if the outcome is the complete, correct one
+			if err := w.committed(c); err != nil {
+				return o, fmt.Errorf("storage access #%d failed, Commit reported success, but: %v", c.FaultAt, err)
+			}
+			o.Class("fault-survived-with-correct-outcome")
+			return o, nil
 		}
 		mid, err := w.snapshot(c)
 		if err != nil {
@@ -438,11 +456,11 @@ func run(c Case) (o evid.Outcome, err error) {
 	case "discard-fault":
 		w.arm(c.FaultAt, c.Dead)
 		derr := transaction.Discard(w.rs, w.id)
-		if w.hit && derr == nil {
-			return o, fmt.Errorf("store write #%d failed but Discard reported success", c.FaultAt)
-		}
 		hit := w.hit
 		w.arm(0, false)
+		if hit && derr == nil {
+			return o, fmt.Errorf("storage access #%d failed but Discard reported success", c.FaultAt)
+		}
 		if hit {
 			if err := transaction.Discard(w.rs, w.id); err != nil {
 				return o, fmt.Errorf("re-running an interrupted discard fails: %v", err)
@@ -474,6 +492,70 @@ func run(c Case) (o evid.Outcome, err error) {
 			return o, err
 		}
 		o.NonTrivial = true
+	case "reapply":
+		// the transaction is committed, every second branch (at least one) then moves on with a
+		// commit of its own, and the transaction is applied again: the branches that moved get a new
+		// commit on top of their current head carrying the transaction's table, the others are
+		// left alone; every head stays a readable commit
+		w.arm(0, false)
+		if _, err := transaction.Commit(w.db, w.rs, w.id); err != nil {
+			return o, fmt.Errorf("Commit: %v", err)
+		}
+		moved := map[string][]byte{}
+		txHead := map[string][]byte{}
+		for i, b := range c.Branches {
+			h, err := ref.GetHead(w.rs, b.Name)
+			if err != nil {
+				return o, fmt.Errorf("HARNESS: %v", err)
+			}
+			txHead[b.Name] = h
+			if i%2 == 0 {
+				sum, err := stores.SaveCommit(w.db, model.Sum([]byte("later-table-"+b.Name)), [][]byte{h}, time.Unix(1600002000+int64(i), 0), "later "+b.Name)
+				if err != nil {
+					return o, fmt.Errorf("HARNESS: %v", err)
+				}
+				if err := ref.CommitHead(w.rs, b.Name, sum, &objects.Commit{AuthorName: "v", AuthorEmail: "v@x", Message: "later"}, nil); err != nil {
+					return o, fmt.Errorf("HARNESS: %v", err)
+				}
+				moved[b.Name] = sum
+			}
+		}
+		reported := map[string]bool{}
+		if err := transaction.Reapply(w.db, w.rs, w.id, func(branch string, sum []byte, message string) {
+			reported[branch] = sum != nil
+		}); err != nil {
+			return o, fmt.Errorf("Reapply: %v", err)
+		}
+		for _, b := range c.Branches {
+			head, err := ref.GetHead(w.rs, b.Name)
+			if err != nil {
+				return o, fmt.Errorf("after Reapply branch %q has no head: %v", b.Name, err)
+			}
+			com, err := objects.GetCommit(w.db, head)
+			if err != nil {
+				return o, fmt.Errorf("after Reapply (%d of %d branches had moved on) branch %q points at an unreadable commit: %v", len(moved), len(c.Branches), b.Name, err)
+			}
+			if prev, ok := moved[b.Name]; ok {
+				if len(com.Parents) != 1 || !bytes.Equal(com.Parents[0], prev) {
+					return o, fmt.Errorf("after Reapply branch %q: head's parent is not the commit the branch had moved on to", b.Name)
+				}
+				if !bytes.Equal(com.Table, w.tables[b.Name]) {
+					return o, fmt.Errorf("after Reapply branch %q: head does not carry the transaction's table", b.Name)
+				}
+				if !reported[b.Name] {
+					return o, fmt.Errorf("Reapply did not report the new commit on %q", b.Name)
+				}
+				raw, _ := w.db.Get(append([]byte("com/"), head...))
+				var buf bytes.Buffer
+				com.WriteTo(&buf)
+				if raw != nil && !bytes.Equal(raw, buf.Bytes()) {
+					return o, fmt.Errorf("after Reapply the commit on %q is stored as %d bytes that are not its encoding (%d bytes)", b.Name, len(raw), buf.Len())
+				}
+			} else if !bytes.Equal(head, txHead[b.Name]) {
+				return o, fmt.Errorf("Reapply moved branch %q although it still was at the transaction's commit", b.Name)
+			}
+		}
+		o.NonTrivial = len(moved) >= 2
 	case "commit-after-discard":
 		w.arm(0, false)
 		if err := transaction.Discard(w.rs, w.id); err != nil {
